@@ -775,6 +775,15 @@ func testRegistry(rt *rapid.T, st *RunStats) {
 			if tp2, ok := ecs.ResourceType(w, rid); !ok || tp2 != tp {
 				failf("resources|lookup|type", "ResourceType(%d) = %v, %v", id, tp2, ok)
 			}
+			if rids := ecs.ResourceIDs(w); len(rids) != len(resM.order) {
+				failf("resources|ids|count", "ResourceIDs has %d entries, %d registered", len(rids), len(resM.order))
+			} else {
+				for i, x := range rids {
+					if int(x.Index()) != i {
+						failf("resources|ids|order", "ResourceIDs[%d]=%d", i, x.Index())
+					}
+				}
+			}
 			res := w.Resources()
 			_, has := resVal[id]
 			if res.Has(rid) != has {
